@@ -271,9 +271,10 @@ Definition set_snubbed (v : env) (c : nat) (h : half) : res half :=
   let h1 := updcs c (set_s true) h in
   if cs_u s then
     do r <- slot v c true h1; do h2 <- recv_unchoke (-1) (fst r);
-    do h3 <- connection_unqueued c h2; Ok (updcs c (set_q false) h3)
+    connection_unqueued c h2
   else if negb (cs_q s) then Ok h1
-  else do h3 <- connection_unqueued c h1; Ok (updcs c (set_q false) h3).
+  (* the queued flag is kept (repaired code, commit d278df5): it records the peer's interest *)
+  else connection_unqueued c h1.
 
 Definition set_not_snubbed (v : env) (c : nat) (h : half) : res half :=
   let s := getcs h c in
